@@ -165,4 +165,18 @@ CHECKS["C20"] = {
   "technique": "Coq proofs by induction over lists and loop steps (lia, lra, ring via BSum), vm_compute witness for the refutation + model-vs-code correspondence at Q + fractions oracle",
 }
 
+CHECKS["C09"] = {
+ "text": "Machine-checked theorems (coq/props/C09.v; the schedule and order theorems are closed under the global context): in the transition system of N workers doing acquire; read XXT; write XXT+c; read YXT; write YXT+d; release "
+         "on shared buffers, for every N, all contributions in any commutative monoid and EVERY schedule, the lock gives mutual exclusion, at every moment the buffers hold exactly the contributions already written, and once all "
+         "workers are done XXT, YXT = initial + the sum of all contributions (nothing lost, nothing counted twice); a terminating schedule exists for every N; without the lock a two-worker schedule loses an update (model of the "
+         "pre-fix legacy trainers). Sorting any permutation of the (index, result) pairs by index returns the results in input order (_sort_and_unpack). Data level: the executable model of partial_fit/_accumulate fills XXT, YXT with "
+         "numbers that depend only on the multiset of retained (input, target) rows, whatever the split into sequences, their order, the grouping into partial fits and the warm-ups. Tied to the code on every run: Ridge on one array / "
+         "lists in several orders / partial-fit groupings (buffers read back), ESN.fit over worker counts and backends, legacy compat ESN.train and RidgeRegression.fit, ESN.run on lists; observed Wout, bias, buffers and the logged "
+         "accumulation schedules are checked inside Coq against the model (exact rational solve; schedules replayed through the transition system).",
+ "note": "No hook in /repo: the harness injects probe accumulators (ndarray subclass with a non-atomic += and a seeded dwell) in place of the shared buffers; this observes mutual exclusion for the threading/sequential backends only. "
+         "For loky/multiprocessing only final Wout/bias are compared; real interleavings, memmap coherence between processes and joblib pickling are outside the model (partial). Trusted: Coq kernel, Reals axioms for the data-level "
+         "theorem only, the hand-written models Conc.v/BatchAcc.v, the probe, LA.qsolve standing for scipy.linalg.solve, reservoir states taken from a twin Reservoir run (C01).",
+ "technique": "Coq proof (lock invariant preserved by every step of every schedule; permutation/regrouping invariance of sums over a commutative monoid; uniqueness of a sorted permutation) + replay of observed schedules and data sets through the same executable model by vm_compute + implementation oracle",
+}
+
 NOT_YET = {}
